@@ -258,6 +258,258 @@ theorem arith_agree_nonvacuous :
   refine ⟨arith_agree lawful_int .add _ rfl _ _ trivial trivial (by simp) (by simp) trivial
     (fun _ _ => rfl) (fun _ _ _ _ => rfl), by decide +kernel⟩
 
+/-! ## aggregates over ranges -/
+
+/-- how a referenced cell reaches the aggregate functions (`cellResolver`; a formula cell whose
+evaluation fails arrives as an empty argument) -/
+def toCell {N : Type} [NumOps N] : Spec.Val N → Impl.CellArg N
+  | .num x => .num x false
+  | .bool b => .num (if b then one else zero) true
+  | .text s => .str s
+  | .blank => .empty
+  | .err _ => .empty
+
+theorem firstErr_none {N : Type} (cells : List (Spec.Val N)) (h : ∀ v ∈ cells, NotErr v) :
+    Spec.firstErr cells = none := by
+  induction cells with
+  | nil => rfl
+  | cons v rest ih =>
+    have hv := h v (by simp)
+    have hr := ih (fun u hu => h u (by simp [hu]))
+    cases v <;> simp_all [Spec.firstErr, NotErr]
+
+theorem maxStep_fold {N : Type} [NumOps N] (cells : List (Spec.Val N)) (m : N) :
+    (cells.map toCell).foldl Impl.maxStep m =
+      (Spec.numbers cells).foldl (fun m y => if lt m y then y else m) m := by
+  induction cells generalizing m with
+  | nil => rfl
+  | cons v rest ih =>
+    cases v <;> simp [toCell, Impl.maxStep, Spec.numbers, ih]
+
+theorem minStep_fold {N : Type} [NumOps N] (cells : List (Spec.Val N)) (m : N) :
+    (cells.map toCell).foldl Impl.minStep m =
+      (Spec.numbers cells).foldl (fun m y => if lt y m then y else m) m := by
+  induction cells generalizing m with
+  | nil => rfl
+  | cons v rest ih =>
+    cases v <;> simp [toCell, Impl.minStep, Spec.numbers, ih]
+
+theorem sel_mem {N : Type} (f : N → N → Bool) (x : N) (xs : List N) :
+    xs.foldl (fun m y => if f m y then y else m) x ∈ x :: xs := by
+  induction xs generalizing x with
+  | nil => simp
+  | cons y ys ih =>
+    simp only [List.foldl]
+    by_cases h : f x y
+    · simp only [h, if_true]
+      have := ih y
+      simp only [List.mem_cons] at this ⊢
+      rcases this with h1 | h1
+      · exact Or.inr (Or.inl h1)
+      · exact Or.inr (Or.inr h1)
+    · simp only [h]
+      have := ih x
+      simp only [List.mem_cons] at this ⊢
+      rcases this with h1 | h1
+      · exact Or.inl h1
+      · exact Or.inr (Or.inr h1)
+
+/-- clause "MAX over arbitrary ranges equals the fold over the referenced cells; text, booleans
+and blanks inside the range are ignored": for every list of referenced cells without error
+values, whatever text / numeric text / booleans / blanks it contains, `MAX` is 0 when there is
+no number and otherwise the maximum of the numbers alone — on both sides.  The hypotheses say
+that every number is above the sentinel −MaxFloat64 and is not a NaN, plus two order laws. -/
+theorem aggregate_fold_max {N : Type} [NumOps N] (L : Lawful N) (cells : List (Spec.Val N))
+    (hne : ∀ v ∈ cells, NotErr v)
+    (hs : ∀ x ∈ Spec.numbers cells, lt (sub zero maxFloat) x = true ∧ isNaN x = false)
+    (hlt : ∀ a b : N, lt a b = true → eq b a = false)
+    (heq : eq (sub zero (maxFloat : N)) (sub zero maxFloat) = true) :
+    let v : N := match Spec.numbers cells with
+      | [] => zero
+      | x :: xs => Spec.maxOf x xs
+    Impl.aggregate .max (cells.map toCell) = .ok (.num v false) ∧
+    Spec.aggregate .max cells = .num v := by
+  simp only [Impl.aggregate, Spec.aggregate, firstErr_none cells hne, maxStep_fold]
+  cases hn : Spec.numbers cells with
+  | nil => simp [heq, Impl.mkNum, L.nan_zero]
+  | cons x xs =>
+    rw [hn] at hs
+    have hx := hs x (by simp)
+    simp only [List.foldl, hx.1, if_true]
+    have hm : Spec.maxOf x xs ∈ x :: xs := sel_mem _ x xs
+    have h1 := hs _ hm
+    have h2 := hlt _ _ h1.1
+    simp [Spec.maxOf] at h1 h2 ⊢
+    simp [h2, Impl.mkNum, h1.2]
+
+/-- the same for MIN (sentinel +MaxFloat64) -/
+theorem aggregate_fold_min {N : Type} [NumOps N] (L : Lawful N) (cells : List (Spec.Val N))
+    (hne : ∀ v ∈ cells, NotErr v)
+    (hs : ∀ x ∈ Spec.numbers cells, lt x maxFloat = true ∧ isNaN x = false)
+    (hlt : ∀ a b : N, lt a b = true → eq a b = false)
+    (heq : eq (maxFloat : N) maxFloat = true) :
+    let v : N := match Spec.numbers cells with
+      | [] => zero
+      | x :: xs => Spec.minOf x xs
+    Impl.aggregate .min (cells.map toCell) = .ok (.num v false) ∧
+    Spec.aggregate .min cells = .num v := by
+  simp only [Impl.aggregate, Spec.aggregate, firstErr_none cells hne, minStep_fold]
+  cases hn : Spec.numbers cells with
+  | nil => simp [heq, Impl.mkNum, L.nan_zero]
+  | cons x xs =>
+    rw [hn] at hs
+    have hx := hs x (by simp)
+    simp only [List.foldl, hx.1, if_true]
+    have hm : Spec.minOf x xs ∈ x :: xs := sel_mem (fun m y => lt y m) x xs
+    have h1 := hs _ hm
+    have h2 := hlt _ _ h1.1
+    simp [Spec.minOf] at h1 h2 ⊢
+    simp [h2, Impl.mkNum, h1.2]
+
+theorem countStep_fold {N : Type} [NumOps N] (cells : List (Spec.Val N)) (n : Nat)
+    (hb : ∀ b, Spec.Val.bool b ∉ cells) :
+    (cells.map toCell).foldl Impl.countStep n = n + (Spec.numbers cells).length := by
+  induction cells generalizing n with
+  | nil => rfl
+  | cons v rest ih =>
+    have hr : ∀ b, Spec.Val.bool b ∉ rest := fun b h => hb b (by simp [h])
+    cases v with
+    | bool b => exact absurd (by simp) (hb b)
+    | num x => simp [toCell, Impl.countStep, Spec.numbers, ih _ hr]; omega
+    | _ => simp [toCell, Impl.countStep, Spec.numbers, ih _ hr]
+
+/-- COUNT over a range without boolean cells counts exactly the numbers (text, numeric text,
+blanks and errors are ignored on both sides); with a boolean cell: `finding_aggregates` -/
+theorem aggregate_fold_count {N : Type} [NumOps N] (cells : List (Spec.Val N))
+    (hb : ∀ b, Spec.Val.bool b ∉ cells) :
+    Impl.aggregate .count (cells.map toCell) = .ok (Impl.mkNum (ofNat (Spec.numbers cells).length)) ∧
+    Spec.aggregate .count cells = .num (ofNat (Spec.numbers cells).length) := by
+  simp [Impl.aggregate, Spec.aggregate, countStep_fold cells 0 hb]
+
+theorem productStep_fold {N : Type} [NumOps N] (cells : List (Spec.Val N)) (p : N)
+    (hb : ∀ b, Spec.Val.bool b ∉ cells) :
+    (cells.map toCell).foldl Impl.productStep p = (Spec.numbers cells).foldl mul p := by
+  induction cells generalizing p with
+  | nil => rfl
+  | cons v rest ih =>
+    have hr : ∀ b, Spec.Val.bool b ∉ rest := fun b h => hb b (by simp [h])
+    cases v with
+    | bool b => exact absurd (by simp) (hb b)
+    | _ => simp [toCell, Impl.productStep, Spec.numbers, ih _ hr]
+
+/-- PRODUCT over a range that holds at least one number, no boolean and no error cell is the
+product of the numbers alone on both sides (partial: without numbers excelize gives 1, Excel 0;
+booleans are multiplied in: `finding_aggregates`) -/
+theorem aggregate_fold_product_partial {N : Type} [NumOps N] (cells : List (Spec.Val N))
+    (hne : ∀ v ∈ cells, NotErr v) (hb : ∀ b, Spec.Val.bool b ∉ cells)
+    (hn : Spec.numbers cells ≠ []) :
+    Impl.aggregate .product (cells.map toCell) = .ok (Impl.mkNum ((Spec.numbers cells).foldl mul one)) ∧
+    Spec.aggregate .product cells = Spec.mkNum ((Spec.numbers cells).foldl mul one) := by
+  simp only [Impl.aggregate, Spec.aggregate, firstErr_none cells hne, productStep_fold cells one hb]
+  cases h : Spec.numbers cells with
+  | nil => exact absurd h hn
+  | cons x xs => simp
+
+theorem sumStep_fold {N : Type} [NumOps N] (cells : List (Spec.Val N)) (s : N)
+    (hz : ∀ x : N, add x zero = x)
+    (hb : ∀ b, Spec.Val.bool b ∉ cells)
+    (ht : ∀ t, Spec.Val.text t ∈ cells → (parse t : Option N) = none)
+    (hnan : ∀ x, Spec.Val.num x ∈ cells → isNaN x = false) :
+    (cells.map toCell).foldl Impl.sumStep s = (Spec.numbers cells).foldl add s := by
+  induction cells generalizing s with
+  | nil => rfl
+  | cons v rest ih =>
+    have hr := fun s' => ih s' (fun b h => hb b (by simp [h])) (fun t h => ht t (by simp [h]))
+      (fun x h => hnan x (by simp [h]))
+    cases v with
+    | bool b => exact absurd (by simp) (hb b)
+    | num x => simp [toCell, Impl.sumStep, Spec.numbers, hnan x (by simp), hr]
+    | text t => simp [toCell, Impl.sumStep, Spec.numbers, ht t (by simp), hr]
+    | blank => simp [toCell, Impl.sumStep, Spec.numbers, hz, hr]
+    | err c => simp [toCell, Impl.sumStep, Spec.numbers, hz, hr]
+
+/-- SUM over a range without boolean, numeric-text and error cells is the sum of the numbers
+alone on both sides (partial: excelize adds numeric text and booleans: `finding_aggregates`);
+`x + 0 = x` is the one law of the carrier used (blank cells are added as 0) -/
+theorem aggregate_fold_sum_partial {N : Type} [NumOps N] (cells : List (Spec.Val N))
+    (hz : ∀ x : N, add x zero = x)
+    (hne : ∀ v ∈ cells, NotErr v) (hb : ∀ b, Spec.Val.bool b ∉ cells)
+    (ht : ∀ t, Spec.Val.text t ∈ cells → (parse t : Option N) = none)
+    (hnan : ∀ x, Spec.Val.num x ∈ cells → isNaN x = false) :
+    Impl.aggregate .sum (cells.map toCell) = .ok (Impl.mkNum ((Spec.numbers cells).foldl add zero)) ∧
+    Spec.aggregate .sum cells = Spec.mkNum ((Spec.numbers cells).foldl add zero) := by
+  simp [Impl.aggregate, Spec.aggregate, firstErr_none cells hne, sumStep_fold cells zero hz hb ht hnan]
+
+/-- clause "MIN, MAX … over arbitrary ranges equal the corresponding fold over the referenced
+cells under Excel's rule that text, booleans and blanks inside a referenced range are ignored":
+both at once (see `aggregate_fold_max`, `aggregate_fold_min`; COUNT, SUM, PRODUCT:
+`aggregate_fold_count`, `aggregate_fold_sum_partial`, `aggregate_fold_product_partial`) -/
+theorem aggregate_fold {N : Type} [NumOps N] (L : Lawful N) (cells : List (Spec.Val N))
+    (hne : ∀ v ∈ cells, NotErr v)
+    (hs : ∀ x ∈ Spec.numbers cells,
+      lt (sub zero maxFloat) x = true ∧ lt x maxFloat = true ∧ isNaN x = false)
+    (hlt : ∀ a b : N, lt a b = true → eq b a = false ∧ eq a b = false)
+    (heq : eq (sub zero (maxFloat : N)) (sub zero maxFloat) = true ∧ eq (maxFloat : N) maxFloat = true) :
+    (Impl.aggregate .max (cells.map toCell) = .ok (.num (match Spec.numbers cells with
+        | [] => zero
+        | x :: xs => Spec.maxOf x xs) false) ∧
+     Spec.aggregate .max cells = .num (match Spec.numbers cells with
+        | [] => zero
+        | x :: xs => Spec.maxOf x xs)) ∧
+    (Impl.aggregate .min (cells.map toCell) = .ok (.num (match Spec.numbers cells with
+        | [] => zero
+        | x :: xs => Spec.minOf x xs) false) ∧
+     Spec.aggregate .min cells = .num (match Spec.numbers cells with
+        | [] => zero
+        | x :: xs => Spec.minOf x xs)) :=
+  ⟨aggregate_fold_max L cells hne (fun x hx => ⟨(hs x hx).1, (hs x hx).2.2⟩) (fun a b h => (hlt a b h).1) heq.1,
+   aggregate_fold_min L cells hne (fun x hx => ⟨(hs x hx).2.1, (hs x hx).2.2⟩) (fun a b h => (hlt a b h).2) heq.2⟩
+
+/-- non-vacuity: the hypotheses of `aggregate_fold` hold on the integer instance for the range
+`["7" "abc" -3]` (the shape of the seeded MAX change), where both sides give −3 -/
+theorem aggregate_fold_nonvacuous :
+    Impl.aggregate .max ([(.text [55] : Spec.Val Int), .text [97], .num (-3)].map toCell) = .ok (.num (-3) false) ∧
+    Spec.aggregate .max [(.text [55] : Spec.Val Int), .text [97], .num (-3)] = .num (-3) := by
+  have h := (aggregate_fold lawful_int [(.text [55] : Spec.Val Int), .text [97], .num (-3)]
+    (by intro v hv; simp at hv; rcases hv with h | h | h <;> subst h <;> trivial)
+    (by intro x hx; simp [Spec.numbers] at hx; subst hx; decide)
+    (by
+      intro a b h
+      have h' : a < b := by simpa [NumOps.lt] using h
+      constructor
+      · show (b == a) = false
+        simp; omega
+      · show (a == b) = false
+        simp; omega)
+    (by decide)).1
+  simpa [Spec.numbers, Spec.maxOf] using h
+
+/-- the aggregate deviations of the current code, on the integer instance:
+SUM adds numeric text and TRUE (`[5 "7"]` → 12, Excel 5; `[TRUE 0]` → 1, Excel 0), AVERAGE counts
+numeric text (`[5 "7"]` → 6, Excel 5), COUNT counts booleans (`[TRUE 0]` → 2, Excel 1), PRODUCT
+without numbers is 1 (Excel 0) and multiplies by FALSE (`[FALSE -3]` → 0, Excel −3), an error
+cell is dropped instead of propagated (`[#DIV/0! 10]` → 10), while MAX ignores text next to
+negative numbers (`["7" "abc" -3]` → −3 on both sides). -/
+theorem finding_aggregates :
+    let c : List (Spec.Val Int) → List (Impl.CellArg Int) := fun l => l.map toCell
+    Impl.aggregate .sum (c [.num 5, .text [55]]) = .ok (.num 12 false) ∧
+    Spec.aggregate .sum [(.num 5 : Spec.Val Int), .text [55]] = .num 5 ∧
+    Impl.aggregate .sum (c [.bool true, .num 0]) = .ok (.num 1 false) ∧
+    Spec.aggregate .sum [(.bool true : Spec.Val Int), .num 0] = .num 0 ∧
+    Impl.aggregate .average (c [.num 5, .text [55]]) = .ok (.num 6 false) ∧
+    Spec.aggregate .average [(.num 5 : Spec.Val Int), .text [55]] = .num 5 ∧
+    Impl.aggregate .count (c [.bool true, .num 0]) = .ok (.num 2 false) ∧
+    Spec.aggregate .count [(.bool true : Spec.Val Int), .num 0] = .num 1 ∧
+    Impl.aggregate .product (c [.text [97]]) = .ok (.num 1 false) ∧
+    Spec.aggregate .product [(.text [97] : Spec.Val Int)] = .num 0 ∧
+    Impl.aggregate .product (c [.bool false, .num (-3)]) = .ok (.num 0 false) ∧
+    Spec.aggregate .product [(.bool false : Spec.Val Int), .num (-3)] = .num (-3) ∧
+    Impl.aggregate .sum (c [.err .div0, .num 10]) = .ok (.num 10 false) ∧
+    Spec.aggregate .sum [(.err .div0 : Spec.Val Int), .num 10] = .err .div0 ∧
+    Impl.aggregate .max (c [.text [55], .text [97], .num (-3)]) = .ok (.num (-3) false) ∧
+    Spec.aggregate .max [(.text [55] : Spec.Val Int), .text [97], .num (-3)] = .num (-3) := by
+  decide +kernel
+
 /-! ## where the current code deviates from Excel: witnesses on the integer instance -/
 
 section findings
